@@ -82,6 +82,8 @@ type c20Env struct {
 	lev  []*res.Event // listener events
 	idxL []string     // index listener calls
 	seq  int          // sequence number (varies the default value)
+	// model is the handler option of indexed configurations (for RebuildIndexes)
+	model resbadger.Model
 }
 
 func (e *c20Env) open() error {
@@ -107,21 +109,25 @@ func (e *c20Env) open() error {
 		var opt res.Option
 		switch {
 		case cfg.Index:
-			idxs := &resbadger.IndexSet{Indexes: []resbadger.Index{{Name: "idxk", Key: func(v interface{}) []byte {
+			keyFn := func(v interface{}) []byte {
 				it, ok := v.(c20Item)
 				if !ok || it.K == "" {
 					return nil
 				}
 				// "<FF>" stands for the byte 0xFF, which a JSON string cannot carry
 				return []byte(strings.ReplaceAll(it.K, "<FF>", "\xff"))
-			}}}}
+			}
+			// a second index with a one-letter name ("keep it rather short"), which happens to be
+			// the first letter of the resource names
+			idxs := &resbadger.IndexSet{Indexes: []resbadger.Index{{Name: "idxk", Key: keyFn}, {Name: "s", Key: keyFn}}}
 			idxs.Listen(func(r res.Resource, before, after interface{}) {
 				e.idxL = append(e.idxL, fmt.Sprintf("any:%s:%s>%s", r.ResourceName(), jsonStr(before), jsonStr(after)))
 			})
 			idxs.ListenIndex("idxk", func(r res.Resource, before, after interface{}) {
 				e.idxL = append(e.idxL, fmt.Sprintf("idxk:%s:%s>%s", r.ResourceName(), jsonStr(before), jsonStr(after)))
 			})
-			opt = resbadger.BadgerDB{DB: db}.Model().WithType(c20Item{}).WithIndexSet(idxs)
+			e.model = resbadger.BadgerDB{DB: db}.Model().WithType(c20Item{}).WithIndexSet(idxs)
+			opt = e.model
 			s.Handle("q", resbadger.BadgerDB{DB: db}.QueryCollection().WithIndexSet(idxs).WithQueryCallback(
 				func(idxs *resbadger.IndexSet, rname string, params map[string]string, q url.Values) (*resbadger.IndexQuery, string, error) {
 					idx, err := idxs.GetIndex("idxk")
@@ -593,6 +599,14 @@ func c20Sequence(c *core.Ctx, cfg c20Cfg, dir string, r *rand.Rand, seq int) boo
 	if err := e2.open(); err != nil {
 		c.Violation("C20/reopen-failed:"+sigCfg, "database could not be reopened: "+err.Error(), nil)
 		return true
+	}
+	if cfg.Index && seq%2 == 0 {
+		// what an application does after opening a database whose index definitions may have
+		// changed: rebuild the index entries of the handler's resources
+		if err := e2.model.RebuildIndexes("svc.r.$id"); err != nil {
+			c.Violation("C20/rebuild-indexes-failed:"+sigCfg, "RebuildIndexes after reopening failed: "+err.Error(), map[string]interface{}{"config": cfg, "history": hist})
+		}
+		c.Obs("rebuilds_after_reopen", 1)
 	}
 	for _, rid := range rids {
 		c.Eval(1)
